@@ -414,6 +414,7 @@ def replay(ctx, subcmd, beh_path, extra_args=(), variant="asan", nproc=None, tim
 
     active = [launch(i, 0) for i in range(len(chunks))]
     results = []
+    hangs = {}
     while active:
         nxt = []
         for a in active:
@@ -445,11 +446,15 @@ def replay(ctx, subcmd, beh_path, extra_args=(), variant="asan", nproc=None, tim
                     if rc == 2 or last_done + 1 >= len(idxmap):
                         raise Machinery("harness %s failed rc=%d: %s" % (subcmd, rc, errtxt[-2000:]))
                     begun = last_done + 1
-                kind = "timeout" if rc == 124 else "crash"
+                # 124: the outer timeout; 142 = 128 + SIGALRM: the harness's own per-behaviour / per-process wall limit
+                kind = "timeout" if rc in (124, 142, -14) else "crash"
                 summ = crash_summary(errtxt, rc)
                 results.append({"i": idxmap[begun], "ok": False, "step": -1, "sig": kind + ":" + summ[0],
-                                "msg": summ[1]})
-                if begun + 1 < len(idxmap):
+                                "msg": summ[1] if kind == "crash" else "the run did not finish within its wall-clock limit (blocked or looping)"})
+                hangs[ci] = hangs.get(ci, 0) + (1 if kind == "timeout" else 0)
+                if hangs[ci] >= 2:
+                    log("[replay] %s: two behaviours of chunk %d did not finish; the rest of the chunk is not executed" % (subcmd, ci))
+                elif begun + 1 < len(idxmap):
                     nxt.append(launch(ci, begun + 1))
         active = nxt
     results.sort(key=lambda o: o["i"])
@@ -502,7 +507,8 @@ def judge_replay(ctx, results, beh_path, total, nontrivial=None, sample=True):
     bad = [r for r in results if not r.get("ok")]
     ctx.evaluations += len(results)
     ctx.traces += len(results)
-    if len(results) < total:
+    if len(results) < total and not any(str(r.get("sig", "")).startswith("timeout") for r in bad):
+        # (after two behaviours of a chunk did not finish, the rest of that chunk is deliberately not executed)
         raise Machinery("harness returned %d results for %d behaviours" % (len(results), total))
     want = [r["i"] for r in bad[:200]]
     if sample:
